@@ -13,7 +13,7 @@ func init() { register("C10", checkC10) }
 
 // C10 — restart equivalence (the repository's share): no consensus-relevant state outside the mounted stores.
 func checkC10(p *Prog, r *Report) {
-	r.Explain = "Decided statically: the only thing the repository itself can get wrong about restart equivalence is keeping consensus-relevant state somewhere other than the mounted KV stores (the SDK discards uncommitted work and reloads committed stores; process memory is lost on restart and is NOT rolled back with a failed transaction or a discarded block). D1 no-hidden-state-channel: over the module functions reachable from the block-processing entry points (handlers, ValidateBasic/GetSigners, Begin/EndBlock, InitGenesis, upgrade handlers), no package-level variable of the module and no field of a long-lived module struct (keeper, msg server, app module) reached through a pointer is both written (outside init) and read; read-only configuration fields and write-only metrics do not trip the rule (control: init-time writes are found). D2 every keys[<const>] handed to a keeper constructor and later used for ctx.KVStore names a key that GenerateKeys creates; the whole key map is mounted; LoadLatestVersion runs under loadLatest. D3 code in scope performs no file or network I/O."
+	r.Explain = "Decided statically: the only thing the repository itself can get wrong about restart equivalence is keeping consensus-relevant state somewhere other than the mounted KV stores (the SDK discards uncommitted work and reloads committed stores; process memory is lost on restart and is NOT rolled back with a failed transaction or a discarded block). D1 no-hidden-state-channel: over the module functions reachable from the block-processing entry points (handlers, ValidateBasic/GetSigners, Begin/EndBlock, InitGenesis, upgrade handlers), no package-level variable of the module and no field of a long-lived module struct (keeper, msg server, app module) reached through a pointer is both written (outside init) and read; read-only configuration fields and write-only metrics do not trip the rule (control: init-time writes are found). D2 every keys[<const>] handed to a keeper constructor and later used for ctx.KVStore names a key that GenerateKeys creates; the whole key map is mounted; LoadLatestVersion runs under loadLatest. D3 code in scope performs no file or network I/O. D2b no *MemoryStoreKey / *TransientStoreKey value is an argument of a call into the module's own packages, and module code outside app/ neither creates such keys nor opens a transient store; D2c an sdk.Context or a raw committed store is obtained only by ExportAppStateAndValidators (start-up writes nothing outside a block)."
 	r.NotDec = []string{"the behaviour of stopping and restarting itself (baseapp deliverState discard, IAVL versioning, LoadLatestVersion)", "crash points inside Commit"}
 	r.Trusted = []string{"cosmos-sdk baseapp, store/rootmulti, IAVL"}
 	kp := func(rule, rest string) string { return rule + ":C10:" + rest }
